@@ -77,12 +77,24 @@ func TestVerif_C05_h2write(t *testing.T) {
 	}
 	rb := func(n int) []byte { return []byte(verifh.RandBytes(r, n, "")) }
 	n := verifh.N(6000, 150000)
+	var fb, xb bytes.Buffer
+	var fk *Framer
+	var xf *xh2.Framer
 	for c := 0; c < n; c++ {
 		allow := r.Intn(5) == 0
-		var fb, xb bytes.Buffer
-		fk := NewFramer(&fb, nil)
+		// one Framer pair serves a run of consecutive writes (as on a connection): what a write
+		// leaves in the Framer (wbuf, a refused frame's half-written header) must not leak into
+		// the next one
+		if fk == nil || r.Intn(8) == 0 {
+			fk = NewFramer(&fb, nil)
+			xf = xh2.NewFramer(&xb, nil)
+			hs.Count("fresh-framer")
+		} else {
+			hs.Count("reused-framer")
+		}
+		fb.Reset()
+		xb.Reset()
 		fk.AllowIllegalWrites = allow
-		xf := xh2.NewFramer(&xb, nil)
 		xf.AllowIllegalWrites = allow
 		var line, human string
 		var ferr, xerr error
@@ -291,7 +303,7 @@ func TestVerif_C05_h2write(t *testing.T) {
 	s.Finish()
 	hs.Require(t, "WriteDataPadded", "WriteHeaders", "WritePriority", "WriteRSTStream", "WriteSettings", "WriteSettingsAck", "WritePing", "WriteGoAway",
 		"WriteWindowUpdate", "WriteContinuation", "WritePushPromise", "WriteRawFrame", "WriteData(large)",
-		"err:streamid", "err:depstreamid", "err:padlength", "err:padbytes", "err:windowincr", "limit-ok=true", "limit-ok=false")
+		"reused-framer", "err:streamid", "err:depstreamid", "err:padlength", "err:padbytes", "err:windowincr", "limit-ok=true", "limit-ok=false")
 }
 
 func c05short(s string) string {
